@@ -77,9 +77,9 @@ def kwEq (a b : KW) : Bool := (keys a ++ keys b).all (sameAt a b)
 
 def argsEq (a b : CArgs) : Bool := a.pos == b.pos && kwEq a.kw b.kw
 
-/-- `Call.__eq__`: `task` (`Task.__eq__`: name and code object, i.e. `cls`), `args`, `kwargs`;
-    `called_as` is not compared -/
-def callEq (c d : Occ) : Bool := c.cls == d.cls && argsEq c.args d.args
+/-- `Call.__eq__` BEFORE the repair (DESIGN §4 #22/#30): `task` (`Task.__eq__`: name and code object,
+    i.e. `cls`) and the LITERAL `args`, `kwargs`; `called_as` is not compared -/
+def callEqPinned (c d : Occ) : Bool := c.cls == d.cls && argsEq c.args d.args
 
 /-! ### `dedupe` -/
 
@@ -96,8 +96,8 @@ def dedupeFrom {α} (eqv : α → α → Bool) (kept : List α) : List α → Li
 
 def dedupeBy {α} (eqv : α → α → Bool) (l : List α) : List α := dedupeFrom eqv [] l
 
-/-- `Executor.dedupe` -/
-def dedupe (l : List Occ) : List Occ := dedupeBy callEq l
+/-- `Executor.dedupe` with the pre-repair equality -/
+def dedupePinned (l : List Occ) : List Occ := dedupeBy callEqPinned l
 
 /-! ### `normalize` -/
 
@@ -111,11 +111,7 @@ def normalize (dflt : Option TaskT) (req : List (TaskT × KW)) : List CallT :=
   | [] => (match dflt with | some t => [(t, noArgs)] | none => [])
   | _ :: _ => req.map reqCall
 
-/-! ### `execute` -/
-
-/-- the list of calls that are executed, in order -/
-def runLog (dd : Bool) (dflt : Option TaskT) (req : List (TaskT × KW)) : List Occ :=
-  if dd then dedupe (expand (normalize dflt req)) else expand (normalize dflt req)
+/-! ### the returned mapping -/
 
 def insertKV (k v : Nat) : List (Nat × Nat) → List (Nat × Nat)
   | [] => [(k, v)]
@@ -130,11 +126,6 @@ def lookupKV (k : Nat) : List (Nat × Nat) → Option Nat
 def runResults (i : Nat) (acc : List (Nat × Nat)) : List Occ → List (Nat × Nat)
   | [] => acc
   | o :: os => runResults (i + 1) (insertKV o.key i acc) os
-
-/-- `Executor.execute`: the run log and the returned mapping (task dictionary key ↦ index of the execution
-    whose return value is stored) -/
-def execute (dd : Bool) (dflt : Option TaskT) (req : List (TaskT × KW)) : List Occ × List (Nat × Nat) :=
-  (runLog dd dflt req, runResults 0 [] (runLog dd dflt req))
 
 /-! ### effective (bound) arguments -/
 
@@ -167,5 +158,53 @@ def subKeys (a b : KW) : Bool := (keys a).all (hasKey b)
 
 def sameSpelling (c d : Occ) : Bool :=
   c.args.pos.length == d.args.pos.length && subKeys c.args.kw d.args.kw && subKeys d.args.kw c.args.kw
+
+/-! ### `Call.__eq__` (as repaired): equal tasks and equal EFFECTIVE arguments -/
+
+def paramNames (sig : List Param) : List Name := sig.map Param.name
+
+def kwNamesParam (sig : List Param) (a : CArgs) (k : Name) : Bool :=
+  (paramNames (sig.drop a.pos.length)).contains k
+
+/-- `inspect.signature(body).bind_partial(None, *args, **kwargs)` succeeds: not more positionals than
+    parameters, every keyword names a parameter that is not already filled positionally -/
+def wellCalled (sig : List Param) (a : CArgs) : Bool :=
+  decide (a.pos.length ≤ sig.length) && (keys a.kw).all (kwNamesParam sig a)
+
+/-- `Call._effective_arguments()`: the bound arguments with defaults applied (one slot per parameter,
+    `none` = still missing; this determines `(bound.args[1:], bound.kwargs)` and vice versa), or the
+    literal `(args, kwargs)` when binding raises `TypeError` -/
+inductive Eff
+  | bound (l : List (Option AVal))
+  | literal (a : CArgs)
+  deriving Repr
+
+def effArgs (sig : List Param) (a : CArgs) : Eff :=
+  if wellCalled sig a then .bound (bind sig a) else .literal a
+
+def effArgsEq : Eff → Eff → Bool
+  | .bound a, .bound b => a == b
+  | .literal a, .literal b => argsEq a b
+  | _, _ => false
+
+/-- `Call.__eq__`: `task` (`Task.__eq__`: name and code object, i.e. `cls`) and the effective arguments;
+    `called_as` is not compared.  `sig` gives each task's parameters (after the context) -/
+def callEq (sig : Nat → List Param) (c d : Occ) : Bool :=
+  c.cls == d.cls && effArgsEq (effArgs (sig c.id) c.args) (effArgs (sig d.id) d.args)
+
+/-- `Executor.dedupe` -/
+def dedupe (sig : Nat → List Param) (l : List Occ) : List Occ := dedupeBy (callEq sig) l
+
+/-! ### `execute` -/
+
+/-- the list of calls that are executed, in order -/
+def runLog (sig : Nat → List Param) (dd : Bool) (dflt : Option TaskT) (req : List (TaskT × KW)) : List Occ :=
+  if dd then dedupe sig (expand (normalize dflt req)) else expand (normalize dflt req)
+
+/-- `Executor.execute`: the run log and the returned mapping (task dictionary key ↦ index of the execution
+    whose return value is stored) -/
+def execute (sig : Nat → List Param) (dd : Bool) (dflt : Option TaskT) (req : List (TaskT × KW)) :
+    List Occ × List (Nat × Nat) :=
+  (runLog sig dd dflt req, runResults 0 [] (runLog sig dd dflt req))
 
 end Inv.Exec
